@@ -375,3 +375,19 @@ def c06_lines(case, rr, rule=None, line_regex=None):
     lines = (obs.get("doc") or "").split("\n")
     diff = set(obs.get("reported") or []) ^ set(obs.get("documented") or [])
     return bool(diff) and all(0 < ln <= len(lines) and re.search(line_regex, lines[ln - 1]) for ln in diff)
+
+
+@matcher
+def c08_list_restructure(case, rr, doc_regex=None):
+    """the fix keeps every content element (text, code, links ...) in order and only moves list /
+    list-item / paragraph boundaries, on a document whose list marker is followed by two or
+    more spaces"""
+    import re
+
+    obs = rr.get("observed") or {}
+    if doc_regex and not re.search(doc_regex, obs.get("doc") or "", re.S):
+        return False
+    b, a = _fp_diff(obs)
+    structural = {"ul", "/ul", "ol", "/ol", "li", "/li", "p", "/p"}
+    content = lambda fp: [x for x in fp if not (isinstance(x, str) and x in structural)]
+    return bool(b) and b != a and content(b) == content(a)
